@@ -180,6 +180,8 @@ def evaluate(limit, files=None):
             done.add((e["file"], e["line"], e["col"], e["op"]))
     d = os.path.join(W, "evalsrc")
     n = 0
+    # relational / arithmetic / logic mutants first, statement deletions last (many of those are leaks only)
+    surv.sort(key=lambda m: (m["op"] == "delete-stmt", "free(" in m["old"]))
     for m in surv:
         key = (m["file"], m["line"], m["col"], m["op"])
         if key in done or (files and m["file"] not in files):
